@@ -239,9 +239,9 @@ func deviceAccessToken(w http.ResponseWriter, r *http.Request, exchanger Exchang
 	if err != nil {
 		return err
 	}
-	if clientAuthenticated != IsConfidentialType(client) {
+	if !deviceClientAuthenticated(r, exchanger, client, clientAuthenticated) {
 		return oidc.ErrInvalidClient().WithParent(ErrNoClientCredentials).
-			WithDescription("confidential client requires authentication")
+			WithDescription("client requires authentication by its registered method")
 	}
 
 	resp, err := CreateDeviceTokenResponse(r.Context(), tokenRequest, exchanger, client)
@@ -251,6 +251,23 @@ func deviceAccessToken(w http.ResponseWriter, r *http.Request, exchanger Exchang
 
 	httphelper.MarshalJSON(w, resp)
 	return nil
+}
+
+// deviceClientAuthenticated reports whether the client authenticated in the way it is registered:
+// public clients (auth method none) need no credential, all others need the credential
+// of their registered method, and that method must be enabled on the provider.
+func deviceClientAuthenticated(r *http.Request, exchanger Exchanger, client Client, authenticated bool) bool {
+	byAssertion := r.Form.Get("client_assertion") != ""
+	switch client.AuthMethod() {
+	case oidc.AuthMethodNone:
+		return true
+	case oidc.AuthMethodPrivateKeyJWT:
+		return authenticated && byAssertion && exchanger.AuthMethodPrivateKeyJWTSupported()
+	case oidc.AuthMethodPost:
+		return authenticated && !byAssertion && exchanger.AuthMethodPostSupported()
+	default:
+		return authenticated && !byAssertion
+	}
 }
 
 func ParseDeviceAccessTokenRequest(r *http.Request, exchanger Exchanger) (*oidc.DeviceAccessTokenRequest, error) {
